@@ -538,7 +538,59 @@ def r9_statement_generator_iterated_once(ctx):
     r7_statement_generator_iterated_once(ctx, rule_id='R-C15.9')
 
 
+def r10_deletions_lowered_from_one_snapshot(ctx):
+    """DeleteApplication deletes every model of an app.  Building the mock of
+    a model needs the signatures of the models its relations point to, so the
+    SQL of all the deletions has to be computed while all of them are still
+    in the signature.  Running `DeleteModel` through run_mutation() *per
+    iteration* (mutate = build the mock, simulate = remove the signature)
+    makes the second model's mock depend on a signature the first deletion
+    already changed: an app whose models reference each other in definition
+    order (target first - the natural order) cannot be purged at all
+    (MissingSignatureError, nothing dropped)."""
+    ctx.rule('R-C15.10')
+    p = ctx.program
+    f = p.func('mutations.delete_application', 'DeleteApplication.mutate')
+    n_loops, hit = 0, False
+    for loop in walk_no_nested(f.node):
+        if not isinstance(loop, ast.For):
+            continue
+        n_loops += 1
+        for c in ast.walk(loop):
+            if isinstance(c, ast.Call) and call_name(c) == 'run_mutation':
+                arg = c.args[0] if c.args else None
+                from ..util import through_copies
+                v = through_copies(f, arg) if arg is not None else None
+                is_delete = isinstance(v, ast.Call) and \
+                    call_name(v) == 'DeleteModel'
+                if not is_delete and isinstance(arg, ast.Name):
+                    is_delete = any(
+                        isinstance(a, ast.Assign) and
+                        isinstance(a.value, ast.Call) and
+                        call_name(a.value) == 'DeleteModel' and
+                        any(isinstance(t, ast.Name) and t.id == arg.id
+                            for t in a.targets)
+                        for a in ast.walk(loop))
+                if is_delete:
+                    hit = True
+                    ctx.finding(f, c, 'DeleteApplication.mutate runs each '
+                                'DeleteModel through run_mutation() inside '
+                                'the loop over the app\'s models: the mock '
+                                'of the next model is built from a '
+                                'signature from which the previous models '
+                                'were already removed, so a model with a '
+                                'relation to an earlier model of the same '
+                                'app raises MissingSignatureError and the '
+                                'purge drops nothing',
+                                key='per-model-delete-simulated-in-loop')
+    ctx.counts['R-C15.10 loops in DeleteApplication.mutate'] = n_loops
+    if not hit:
+        ctx.ok(f, 'the deletions of an app are lowered from one signature '
+               'snapshot')
+
+
 def run(ctx):
+    r10_deletions_lowered_from_one_snapshot(ctx)
     r9_statement_generator_iterated_once(ctx)
     r8_app_lookup_through_accessor(ctx)
     r7_stored_m2m_table_name_survives(ctx)
